@@ -1,7 +1,7 @@
 (* IndexInvProofs.v — C11, part 6: the index invariants as a property of database states
    (live set = the elements of the graph) and their preservation by the value / index mutations
    of DbImpl that leave the graph alone. *)
-From Agdb Require Import Bytes DbValue Graph DbModel Search Queries DbValueProofs DbFrameProofs
+From Agdb Require Import Bytes DbValue Graph DbModel Search Queries DbValueEqProofs DbFrameProofs
   KvProofs KvDbProofs KvSelectProofs IndexProofs IndexDbProofs IndexDb2Proofs IndexDb3Proofs IndexDb4Proofs.
 Open Scope Z_scope.
 
